@@ -143,7 +143,7 @@ class Ctx:
 
     def replay_path(self, obj):
         d = hashlib.sha1(json.dumps(obj, sort_keys=True, default=str).encode()).hexdigest()[:12]
-        return os.path.join(VERIF, "replay", "%s-%s.json" % (self.pid, d))
+        return os.path.join(os.environ.get("VERIF_REPLAY_DIR") or os.path.join(VERIF, "replay"), "%s-%s.json" % (self.pid, d))
 
     def violation(self, kind, scenario, trace=None, detail=""):
         """Record a violation unless an open known finding matches (matcher = finding['match'])."""
@@ -182,8 +182,9 @@ class Ctx:
               "coverage": cov, "assumptions": list(assumptions), "wall_s": round(wall, 2),
               "violations": len(self.violations),
               "known_findings_hit": {k: v[1] for k, v in self.known_hits.items()}}
-        os.makedirs(os.path.join(VERIF, "evidence"), exist_ok=True)
-        with open(os.path.join(VERIF, "evidence", self.pid + ".json"), "w") as f:
+        evdir = os.environ.get("VERIF_EVIDENCE_DIR") or os.path.join(VERIF, "evidence")
+        os.makedirs(evdir, exist_ok=True)
+        with open(os.path.join(evdir, self.pid + ".json"), "w") as f:
             json.dump(ev, f, indent=1, default=str)
         for fid, (f, n) in sorted(self.known_hits.items()):
             print("KNOWN-FINDING: property=%s %s: %s (%d scenario(s) this run)" % (self.pid, fid, f.get("what", ""), n))
